@@ -11,6 +11,7 @@ import (
 	"github.com/karino2/folang/pkg/slice"
 	"pgregory.net/rapid"
 
+	lm "verif/harness/listmodel"
 	"verif/harness/vt"
 )
 
@@ -114,11 +115,11 @@ func run[T cmp.Ordered](c Case, s1, s2 []T, ss [][]T, e T, f fam[T], sentinel T)
 
 	switch c.Fn {
 	case "Length":
-		if g, w := slice.Length(s1), mLength(s1); g != w {
+		if g, w := slice.Length(s1), lm.MLength(s1); g != w {
 			return diff("Length", g, w)
 		}
 	case "Len":
-		if g, w := slice.Len(s1), mLength(s1); g != w {
+		if g, w := slice.Len(s1), lm.MLength(s1); g != w {
 			return diff("Len", g, w)
 		}
 	case "New":
@@ -126,61 +127,61 @@ func run[T cmp.Ordered](c Case, s1, s2 []T, ss [][]T, e T, f fam[T], sentinel T)
 			return diff("New", len(g), 0)
 		}
 	case "IsEmpty":
-		if g, w := slice.IsEmpty(s1), mLength(s1) == 0; g != w {
+		if g, w := slice.IsEmpty(s1), lm.MLength(s1) == 0; g != w {
 			return diff("IsEmpty", g, w)
 		}
 	case "IsNotEmpty":
-		if g, w := slice.IsNotEmpty(s1), mLength(s1) != 0; g != w {
+		if g, w := slice.IsNotEmpty(s1), lm.MLength(s1) != 0; g != w {
 			return diff("IsNotEmpty", g, w)
 		}
 	case "Item":
-		if g, w := slice.Item(c.N, s1), mItem(c.N, s1); g != w {
+		if g, w := slice.Item(c.N, s1), lm.MItem(c.N, s1); g != w {
 			return diff("Item", g, w)
 		}
 	case "Last":
-		if g, w := slice.Last(s1), mLast(s1); g != w {
+		if g, w := slice.Last(s1), lm.MLast(s1); g != w {
 			return diff("Last", g, w)
 		}
 	case "Head":
-		if g, w := slice.Head(s1), mHead(s1); g != w {
+		if g, w := slice.Head(s1), lm.MHead(s1); g != w {
 			return diff("Head", g, w)
 		}
 	case "Tail":
-		if g, w := slice.Tail(s1), mTail(s1); !eqSlice(g, w) {
+		if g, w := slice.Tail(s1), lm.MTail(s1); !lm.EqSlice(g, w) {
 			return diff("Tail", g, w)
 		}
 	case "Take":
-		if g, w := slice.Take(c.N, s1), mTake(c.N, s1); !eqSlice(g, w) {
+		if g, w := slice.Take(c.N, s1), lm.MTake(c.N, s1); !lm.EqSlice(g, w) {
 			return diff("Take", g, w)
 		}
 	case "PopLast":
-		if g, w := slice.PopLast(s1), mPopLast(s1); !eqSlice(g, w) {
+		if g, w := slice.PopLast(s1), lm.MPopLast(s1); !lm.EqSlice(g, w) {
 			return diff("PopLast", g, w)
 		}
 	case "Skip":
-		if g, w := slice.Skip(c.N, s1), mSkip(c.N, s1); !eqSlice(g, w) {
+		if g, w := slice.Skip(c.N, s1), lm.MSkip(c.N, s1); !lm.EqSlice(g, w) {
 			return diff("Skip", g, w)
 		}
 	case "Map":
-		if g, w := slice.Map(mapF, s1), mMap(mapF, s1); !eqSlice(g, w) {
+		if g, w := slice.Map(mapF, s1), lm.MMap(mapF, s1); !lm.EqSlice(g, w) {
 			return diff("Map", g, w)
 		}
 	case "MapU":
-		if g, w := slice.Map(mapU, s1), mMap(mapU, s1); !eqSlice(g, w) {
+		if g, w := slice.Map(mapU, s1), lm.MMap(mapU, s1); !lm.EqSlice(g, w) {
 			return diff("Map (T->string)", g, w)
 		}
 	case "Mapi":
-		if g, w := slice.Mapi(mapiF, s1), mMapi(mapiF, s1); !eqSlice(g, w) {
+		if g, w := slice.Mapi(mapiF, s1), lm.MMapi(mapiF, s1); !lm.EqSlice(g, w) {
 			return diff("Mapi", g, w)
 		}
 	case "Iter":
 		var calls []T
 		slice.Iter(func(x T) { calls = append(calls, x) }, s1)
-		if !eqSlice(calls, s1) {
+		if !lm.EqSlice(calls, s1) {
 			return diff("Iter (sequence of calls)", calls, s1)
 		}
 	case "Filter":
-		if g, w := slice.Filter(pred, s1), mFilter(pred, s1); !eqSlice(g, w) {
+		if g, w := slice.Filter(pred, s1), lm.MFilter(pred, s1); !lm.EqSlice(g, w) {
 			return diff("Filter", g, w)
 		}
 	case "Sort":
@@ -190,7 +191,7 @@ func run[T cmp.Ordered](c Case, s1, s2 []T, ss [][]T, e T, f fam[T], sentinel T)
 				return fmt.Errorf("Sort: result %v is not ascending at %d", g, i)
 			}
 		}
-		if !isPermutation(g, s1) {
+		if !lm.IsPermutation(g, s1) {
 			return fmt.Errorf("Sort: result %v is not a permutation of the input %v", g, s1)
 		}
 	case "SortBy":
@@ -200,12 +201,12 @@ func run[T cmp.Ordered](c Case, s1, s2 []T, ss [][]T, e T, f fam[T], sentinel T)
 				return fmt.Errorf("SortBy: result %v is not ascending by key at %d", g, i)
 			}
 		}
-		if !isPermutation(g, s1) {
+		if !lm.IsPermutation(g, s1) {
 			return fmt.Errorf("SortBy: result %v is not a permutation of the input %v", g, s1)
 		}
 	case "Zip":
 		g := slice.Zip(s1, s2)
-		w := mZip(s1, s2)
+		w := lm.MZip(s1, s2)
 		if len(g) != len(w) {
 			return diff("Zip length", len(g), len(w))
 		}
@@ -217,27 +218,27 @@ func run[T cmp.Ordered](c Case, s1, s2 []T, ss [][]T, e T, f fam[T], sentinel T)
 	case "Forall":
 		var calls []T
 		g := slice.Forall(func(x T) bool { calls = append(calls, x); return pred(x) }, s1)
-		idx, n := mScan(pred, s1, false)
+		idx, n := lm.MScan(pred, s1, false)
 		if g != (idx < 0) {
 			return diff("Forall", g, idx < 0)
 		}
-		if !eqSlice(calls, s1[:n]) {
+		if !lm.EqSlice(calls, s1[:n]) {
 			return diff("Forall (elements tested, in order)", calls, s1[:n])
 		}
 	case "Forany":
 		var calls []T
 		g := slice.Forany(func(x T) bool { calls = append(calls, x); return pred(x) }, s1)
-		idx, n := mScan(pred, s1, true)
+		idx, n := lm.MScan(pred, s1, true)
 		if g != (idx >= 0) {
 			return diff("Forany", g, idx >= 0)
 		}
-		if !eqSlice(calls, s1[:n]) {
+		if !lm.EqSlice(calls, s1[:n]) {
 			return diff("Forany (elements tested, in order)", calls, s1[:n])
 		}
 	case "TryFind":
 		var calls []T
 		g := slice.TryFind(func(x T) bool { calls = append(calls, x); return pred(x) }, s1)
-		idx, n := mScan(pred, s1, true)
+		idx, n := lm.MScan(pred, s1, true)
 		gv, gok := frt.Destr2(g)
 		if gok != (idx >= 0) {
 			return diff("TryFind found", gok, idx >= 0)
@@ -245,39 +246,39 @@ func run[T cmp.Ordered](c Case, s1, s2 []T, ss [][]T, e T, f fam[T], sentinel T)
 		if idx >= 0 && gv != s1[idx] {
 			return diff("TryFind value", gv, s1[idx])
 		}
-		if !eqSlice(calls, s1[:n]) {
+		if !lm.EqSlice(calls, s1[:n]) {
 			return diff("TryFind (elements tested, in order)", calls, s1[:n])
 		}
 	case "PushLast":
-		if g, w := slice.PushLast(e, s1), mPushLast(e, s1); !eqSlice(g, w) {
+		if g, w := slice.PushLast(e, s1), lm.MPushLast(e, s1); !lm.EqSlice(g, w) {
 			return diff("PushLast", g, w)
 		}
 	case "PushHead":
-		if g, w := slice.PushHead(e, s1), mPushHead(e, s1); !eqSlice(g, w) {
+		if g, w := slice.PushHead(e, s1), lm.MPushHead(e, s1); !lm.EqSlice(g, w) {
 			return diff("PushHead", g, w)
 		}
 	case "Collect":
-		if g, w := slice.Collect(collectF, s1), mCollect(collectF, s1); !eqSlice(g, w) {
+		if g, w := slice.Collect(collectF, s1), lm.MCollect(collectF, s1); !lm.EqSlice(g, w) {
 			return diff("Collect", g, w)
 		}
 	case "Concat":
-		if g, w := slice.Concat(ss), mConcat(ss); !eqSlice(g, w) {
+		if g, w := slice.Concat(ss), lm.MConcat(ss); !lm.EqSlice(g, w) {
 			return diff("Concat", g, w)
 		}
 	case "Append":
-		if g, w := slice.Append(s1, s2), mAppend(s1, s2); !eqSlice(g, w) {
+		if g, w := slice.Append(s1, s2), lm.MAppend(s1, s2); !lm.EqSlice(g, w) {
 			return diff("Append", g, w)
 		}
 	case "Distinct":
-		if g, w := slice.Distinct(s1), mDistinct(s1); !eqSlice(g, w) {
+		if g, w := slice.Distinct(s1), lm.MDistinct(s1); !lm.EqSlice(g, w) {
 			return diff("Distinct", g, w)
 		}
 	case "Fold":
-		if g, w := slice.Fold(folderT, e, s1), mFold(folderT, e, s1); g != w {
+		if g, w := slice.Fold(folderT, e, s1), lm.MFold(folderT, e, s1); g != w {
 			return diff("Fold", g, w)
 		}
 	case "FoldStr":
-		if g, w := slice.Fold(folderS, "^", s1), mFold(folderS, "^", s1); g != w {
+		if g, w := slice.Fold(folderS, "^", s1), lm.MFold(folderS, "^", s1); g != w {
 			return diff("Fold (string state)", g, w)
 		}
 	default:
